@@ -58,6 +58,7 @@ def load_findings():
         return json.load(open(p))
     except FileNotFoundError:
         return []
+    # (single committed file; never written at run time)
 
 
 def write_replay(prop, obj):
